@@ -165,16 +165,24 @@ func runC20(r *Run) {
 			}
 		}
 		sort.SliceStable(best, func(a, b int) bool { return best[a].polls > best[b].polls })
-		for k := 0; k < len(best) && k < 3; k++ {
+		per := 2
+		if r.Thorough() {
+			per = 3
+		}
+		for k := 0; k < len(best) && k < per; k++ {
 			chosen[i] = append(chosen[i], pd{text, gdocs[best[k].idx].text})
 		}
 	})
 	gen2 := 0
-	for _, c := range chosen {
+	for ci, c := range chosen {
 		for _, x := range c {
 			gen2++
 			for _, entry := range entryNames {
-				for _, ek := range []string{"canceled", "deadline"} {
+				eks := []string{"canceled", "deadline"}
+				if !r.Thorough() {
+					eks = eks[ci%2 : ci%2+1] // quick: the two context errors alternate over the generated programs
+				}
+				for _, ek := range eks {
 					for _, silent := range []bool{false, true} {
 						jobs = append(jobs, Case{Rule: "cancel-at-poll-k", Path: x.path, Doc: x.doc, Num: "float64", Vars: map[string]string{"x": "i:1"},
 							Silent: silent, Entry: entry, Extra: map[string]string{"err": ek}})
